@@ -239,13 +239,62 @@ def ring_cases(st):
     docs.clear()
 
 
+def threaded_parse(st):
+    """E3 (coarse): thread A parses an ordinary nested schema while thread B parses a recursive document / a schema with an
+    unsupported keyword; scheduling points at every entry to parse_element; all schedules with <= 1 preemption."""
+    from mc import sched
+
+    ordinary = {"type": "object", "title": "Ord", "properties": {"a": {"type": "array", "items": {"anyOf": [{"type": "integer"}, {"type": "object", "title": "In", "properties": {"x": {}}}]}}, "b": {"not": {"const": 1}}}}
+    ring = {"type": "object", "title": "Ring", "properties": {}}
+    ring["properties"]["me"] = {"type": "array", "items": ring}
+    cases = {
+        "ordinary || recursive": (lambda: copy.deepcopy(ordinary), lambda: ring, ["RETURNED", "REFUSED"]),
+        "ordinary || unsupported": (lambda: copy.deepcopy(ordinary), lambda: {"properties": {"p": {"if": {}}}}, ["RETURNED", "REFUSED"]),
+        "recursive || recursive": (lambda: ring, lambda: ring, ["REFUSED", "REFUSED"]),
+    }
+
+    def body(mk):
+        def run():
+            try:
+                parse_element(mk() if mk() is not ring else ring)
+                return "RETURNED"
+            except Exception as exc:
+                return classify(exc)
+
+        return run
+
+    for label, (ma, mb, want) in cases.items():
+        def make_bodies():
+            return [body(ma), body(mb)], None
+
+        def check(ex, ctx, schedule):
+            st.add("states")
+            st.add("evaluations")
+            st.add("traces")
+            st.add("transitions", ex.steps)
+            st.add("nontrivial")
+            got = [ex.results.get(0), ex.results.get(1)]
+            if got != want or ex.errors:
+                st.violation("concurrent-parse-differs", "%s: under schedule %s the parses gave %s (errors %s), sequentially %s" % (label, sorted(schedule.items()), got, ex.errors, want), {"case": label, "schedule": sorted(schedule.items()), "got": got, "sequential": want}, rank=len(schedule))
+
+        try:
+            for start in (0, 1):
+                res = sched.explore(make_bodies, check, 1, ("calls", {"parse_element"}), base={0: start}, max_execs=400)
+                st.add("schedules", res["executions"])
+                if res["capped"]:
+                    st.add("caps_hit_threaded_parse")
+        except (sched.ScheduleDivergence, sched.Deadlock) as exc:
+            st.violation("HARNESS:%s" % type(exc).__name__, "%s: %s" % (label, exc), {"case": label})
+    st.outcome("threaded-parse")
+
+
 def plan(tier, seed):
     nb = len([l for l in A.LEAVES if isinstance(l, dict)]) + A.N
     items = [("kw", lo, min(nb, lo + 6)) for lo in range(0, nb, 6)]
     items += [("graph", 1, 0, 2, REF_KINDS), ("graph", 2, 0, 16, REF_KINDS)]
     kinds3 = REF_KINDS if tier == "thorough" else ["properties", "anyOf"]
     items += [("graph", 3, lo, lo + 16, kinds3) for lo in range(0, 512, 16)]
-    items += [("rings",)]
+    items += [("rings",), ("threads",)]
     return {"items": items, "meta": {"bases": nb, "positions": POSITIONS, "unsupported_atoms": len(UNSUPPORTED), "ref_kinds_n3": kinds3, "ring_lengths": [1, 8], "budget_call_events": BUDGET, "exhaustive": True}}
 
 
@@ -258,6 +307,9 @@ def work(item):
         graph_cases(st, item[1], item[2], item[3], item[4])
         if item[2] == 0:
             st.sample({"reference_graphs_n": item[1], "kinds": item[4]})
+    elif item[0] == "threads":
+        threaded_parse(st)
+        st.sample({"threaded_parse": "2 threads, scheduling points at parse_element entry, <= 1 preemption"})
     else:
         ring_cases(st)
         st.sample({"rings": "length 1..8 x %s + cross-file" % REF_KINDS})
@@ -266,6 +318,9 @@ def work(item):
 
 def replay(case):
     st = runner.Stats()
+    if "schedule" in case:
+        threaded_parse(st)
+        return [v for lst in st.violations.values() for _, v in lst]
     if "graph" in case:
         judge_graph(st, case["graph"], case["document"], case.get("extra"), "ring" in case["graph"] or "self" in case["graph"] or "<->" in case["graph"] or _cyclic_label(case["graph"]), 0)
     else:
